@@ -245,6 +245,28 @@ class C12(PipelineCheck):
                         if not any(re.search(r'\b%s\b' % re.escape(x), rest) for x in names):
                             add('type-parameter', 'bound-missing', 'class %s: bound %s of type '
                                 'parameter %s not in header %r' % (name, bn, p.name, rest[:80]))
+        # type parameters of functions: declared in the function's own header
+        lines = text.split('\n')
+        for node, path, parents in walk.iter_nodes(program):
+            if not isinstance(node, ast.FunctionDeclaration) or not node.type_parameters:
+                continue
+            nm = re.escape(node.name)
+            if lang in ('kotlin', 'scala'):
+                hdr = re.compile(r'\b(?:fun|def)\b(.*?\b%s\b[^(]*)\(' % nm)
+            else:
+                hdr = re.compile(r'^([^=.]*?\b%s)\s*\(' % nm)
+            heads = [m_.group(1) for m_ in (hdr.search(ln) for ln in lines) if m_]
+            if lang in ('java', 'groovy'):
+                heads = [h for h in heads if not re.search(r'\b(return|new)\b', h)]
+            if not heads:
+                continue
+            obl['function-type-parameters'] = obl.get('function-type-parameters', 0) + 1
+            want = [p.name for p in node.type_parameters]
+            if not any(all(re.search(r'\b%s\b' % re.escape(w_), h) for w_ in want)
+                       for h in heads):
+                add('type-parameter', 'function-header',
+                    'function %s declares type parameters %s, its header in the text reads %r' % (
+                        node.name, want, heads[0].strip()[:100]))
         # names of functions, fields, parameters, variables
         obl['name-inventory'] += 1
         nlit = 0
